@@ -836,23 +836,51 @@ impl ExWorld {
     async fn new(sendmax: usize, reject: &str, scen: &str) -> Self {
         let global = mk_global();
         let tables: TableHandle = Arc::new(TableManager::new(1));
-        // an export policy that rejects the routes of one attribute class (they carry the community 65000:<n>)
-        let rejecting = |n: u32| {
+        // `reject` = <class|->[@<source>]: the neighbour's export policy rejects the routes of one attribute class (they carry
+        // the community 65000:<n>) and / or the routes of one source.  The source half is an RPKI condition: ROAs make that
+        // source's routes Invalid and everybody else's Valid, and the assignment is ACCUMULATED over two calls (the RPKI
+        // policy first), as an operator issuing two AddPolicyAssignment requests builds it.
+        let (reject, rej_src) = match reject.split_once('@') {
+            Some((c, s)) => (c, Some(s)),
+            None => (reject, None),
+        };
+        let rejecting = |n: u32, rpki: bool| {
             let mut pt = table::PolicyTable::new();
             pt.add_defined_set(table::DefinedSetConfig::Community { name: "rej".into(), patterns: vec![format!("65000:{n}")] }).map_err(|_| ()).unwrap();
             pt.add_statement("s", vec![table::ConditionConfig::CommunitySet("rej".into(), table::MatchOption::Any)], Some(table::Disposition::Reject), table::Actions::default())
                 .map_err(|_| ())
                 .unwrap();
             pt.add_policy("p", vec!["s".into()]).map_err(|_| ()).unwrap();
+            if rpki {
+                pt.add_statement("sr", vec![table::ConditionConfig::Rpki(table::RpkiValidationState::Invalid)], Some(table::Disposition::Reject), table::Actions::default())
+                    .map_err(|_| ())
+                    .unwrap();
+                pt.add_policy("pr", vec!["sr".into()]).map_err(|_| ()).unwrap();
+                pt.add_assignment("global", table::PolicyDirection::Export, table::Disposition::Accept, vec!["pr".into()]).map_err(|_| ()).unwrap();
+            }
             let (_, a) = pt.add_assignment("global", table::PolicyDirection::Export, table::Disposition::Accept, vec!["p".into()]).map_err(|_| ()).unwrap();
             a
         };
         tables.import_policy.store(Some(ex_import_policy(false)));
-        if reject != "-" {
+        // community number of the rejected class; 7 is carried by no route
+        let n = match reject {
+            "x" => 1,
+            "y" => 2,
+            _ => 7,
+        };
+        if reject != "-" || rej_src.is_some() {
             // the neighbour's own export policy rejects class `reject`; the global one (which the neighbour's overrides)
-            // rejects the OTHER class, so that using the wrong one anywhere shows
-            let n = if reject == "x" { 1 } else { 2 };
-            tables.export_policy.store(Some(rejecting(3 - n)));
+            // rejects the OTHER class (and knows no RPKI condition), so that using the wrong one anywhere shows
+            tables.export_policy.store(Some(rejecting(if n == 7 { 1 } else { 3 - n }, false)));
+        }
+        if let Some(rs) = rej_src {
+            let cache = Arc::new(IpAddr::V4(Ipv4Addr::new(192, 0, 2, 200)));
+            let roas = ["s1", "s2", "o"]
+                .iter()
+                .filter(|s| **s != rs)
+                .map(|s| (packet::IpNet::new(IpAddr::V4(Ipv4Addr::new(10, 1, 0, 0)), 16), Arc::new(table::Roa::new(24, ex_src_asn(s), cache.clone()))))
+                .collect();
+            tables.rpki_insert(roas);
         }
         let obs_addr = IpAddr::V4(Ipv4Addr::new(127, 0, 0, 1));
         let mut p = base_params(obs_addr);
@@ -869,9 +897,8 @@ impl ExWorld {
             _ => {}
         }
         global.write().await.add_peer(p, None).unwrap();
-        if reject != "-" {
-            let n = if reject == "x" { 1 } else { 2 };
-            global.read().await.peers.get(&obs_addr).unwrap().state.export_policy.store(Some(rejecting(n)));
+        if reject != "-" || rej_src.is_some() {
+            global.read().await.peers.get(&obs_addr).unwrap().state.export_policy.store(Some(rejecting(n, rej_src.is_some())));
         }
         let mut sources = FnvHashMap::default();
         for s in ["s1", "s2", "o"] {
@@ -3798,6 +3825,174 @@ async fn rtr_api_replay() {
             drop(second);
             drop(sock);
         }
+    }
+    out.flush().unwrap();
+}
+
+// ------------------------------------------------------------------------------------------------
+// C15 (session half): behaviours of spec/SessionLimit/SessionLimit.tla on the real PeerSession (accept_connection ->
+// PeerSession::new builds the per-family counters; rx_update hands them to the real TableManager).
+// Input (VERIF_IN ends ".sl.in"):  "seq <id> <v4max|-> <v6max|->", then one op per line:
+//     ann <f> <pfx> <pid> | annall <f> <pid> | wd <f> <pfx> <pid> | oann <f> <pfx> | owd <f> <pfx>
+// Output: per op the return value of rx_update, every family's counter (999 = no counter), and a recount of the RIB:
+// the (prefix, path id) pairs held from the session's address, the other peer's prefixes, the table's destination total.
+// ------------------------------------------------------------------------------------------------
+fn sl_family(f: &str) -> Family {
+    match f {
+        "v4" => Family::IPV4,
+        "v6" => Family::IPV6,
+        x => panic!("harness: family {x}"),
+    }
+}
+
+fn sl_net(f: &str, p: &str) -> packet::Nlri {
+    let k: u8 = p[1..].parse().unwrap();
+    if f == "v4" {
+        packet::Nlri::V4(bgp::Ipv4Net { addr: Ipv4Addr::new(10, k, 0, 0), mask: 24 })
+    } else {
+        packet::Nlri::V6(bgp::Ipv6Net { addr: format!("2001:db8:{k}::").parse().unwrap(), mask: 48 })
+    }
+}
+
+fn sl_name(n: &packet::Nlri) -> String {
+    match n {
+        packet::Nlri::V4(x) => format!("x{}", x.addr.octets()[1]),
+        packet::Nlri::V6(x) => format!("x{}", x.addr.segments()[2]),
+        _ => "?".into(),
+    }
+}
+
+#[tokio::test]
+async fn sesslimit_replay() {
+    let Ok(inp) = std::env::var("VERIF_IN") else {
+        return;
+    };
+    if !inp.ends_with(".sl.in") {
+        return;
+    }
+    let outp = std::env::var("VERIF_OUT").expect("VERIF_OUT");
+    let text = std::fs::read_to_string(&inp).expect("read VERIF_IN");
+    let mut out = std::io::BufWriter::new(std::fs::File::create(&outp).expect("create VERIF_OUT"));
+    let src = Ipv4Addr::new(127, 0, 1, 1);
+    let other_addr = IpAddr::V4(Ipv4Addr::new(127, 0, 1, 2));
+    let mut cur: Option<(String, usize, PeerSession, TableHandle, Arc<table::Source>)> = None;
+    for line in text.lines() {
+        let t: Vec<&str> = line.split_whitespace().collect();
+        if t.is_empty() {
+            continue;
+        }
+        if t[0] == "seq" {
+            let global = mk_global();
+            let tables: TableHandle = Arc::new(TableManager::new(2));
+            {
+                let mut g = global.write().await;
+                let mut p = base_params(IpAddr::V4(src));
+                p.expected_remote_asn = 65002;
+                for (i, f) in [(2usize, Family::IPV4), (3usize, Family::IPV6)] {
+                    if t[i] != "-" {
+                        p.prefix_limits.insert(f, t[i].parse().unwrap());
+                    }
+                }
+                g.add_peer(p, None).unwrap();
+            }
+            let (_client, server) = pair_from(src).await;
+            let mut sess = accept_connection(&global, &tables, server, crate::fsm::Role::Passive).await.expect("accepted");
+            for f in [Family::IPV4, Family::IPV6] {
+                sess.source.insert(
+                    f,
+                    Arc::new(table::Source::new(
+                        IpAddr::V4(src),
+                        sess.export_ctx.local_addr,
+                        65002,
+                        sess.export_ctx.local_asn,
+                        Ipv4Addr::new(2, 0, 0, 2),
+                        sess.export_ctx.role,
+                    )),
+                );
+            }
+            let other = Arc::new(table::Source::new(
+                other_addr,
+                sess.export_ctx.local_addr,
+                65003,
+                sess.export_ctx.local_asn,
+                Ipv4Addr::new(3, 0, 0, 3),
+                PeerRole::Ebgp,
+            ));
+            // keep the client end open for the lifetime of the sequence
+            std::mem::forget(_client);
+            cur = Some((t[1].to_string(), 0, sess, tables, other));
+            continue;
+        }
+        let (sid, step, sess, tables, other) = cur.as_mut().expect("seq first");
+        *step += 1;
+        let attr = Arc::new(vec![
+            packet::Attribute::new_with_value(packet::Attribute::ORIGIN, 0).unwrap(),
+            packet::Attribute::new_with_bin(packet::Attribute::AS_PATH, vec![2, 1, 0, 0, 0xfd, 0xea]).unwrap(),
+        ]);
+        let nh = |f: &str| {
+            if f == "v4" {
+                Some(bgp::Nexthop::V4(Ipv4Addr::new(192, 0, 2, 1)))
+            } else {
+                Some(bgp::Nexthop::V6("2001:db8::1".parse().unwrap()))
+            }
+        };
+        let mut over = false;
+        match t[0] {
+            "ann" | "annall" => {
+                let (names, pid): (Vec<String>, u32) = if t[0] == "ann" {
+                    (vec![t[2].to_string()], t[3].parse().unwrap())
+                } else {
+                    ((1..=3).map(|k| format!("x{k}")).collect(), t[2].parse().unwrap())
+                };
+                let entries = names.iter().map(|p| packet::PathNlri { path_id: pid, nlri: sl_net(t[1], p) }).collect();
+                let reach = bgp::ReachNlri { family: sl_family(t[1]), entries, nexthop: nh(t[1]) };
+                over = sess.rx_update(Some(reach), None, attr.clone(), 0).await;
+            }
+            "wd" => {
+                let unreach = packet::UnreachNlri {
+                    family: sl_family(t[1]),
+                    entries: vec![packet::PathNlri { path_id: t[3].parse().unwrap(), nlri: sl_net(t[1], t[2]) }],
+                };
+                over = sess.rx_update(None, Some(unreach), Arc::new(Vec::new()), 0).await;
+            }
+            "oann" => {
+                let _ = tables.insert_route(other.clone(), sl_family(t[1]), packet::PathNlri::new(sl_net(t[1], t[2])), nh(t[1]), attr.clone(), None, 0);
+            }
+            "owd" => {
+                tables.remove_route(other.clone(), sl_family(t[1]), packet::PathNlri::new(sl_net(t[1], t[2])), None, 0);
+            }
+            x => panic!("harness: op {x}"),
+        }
+        let mut cnt = String::new();
+        let mut held = String::new();
+        let mut oth = String::new();
+        let mut dest = String::new();
+        for (i, (name, f)) in [("v4", Family::IPV4), ("v6", Family::IPV6)].into_iter().enumerate() {
+            let sep = if i > 0 { "," } else { "" };
+            let c = sess.prefix_counters.get(&f).map(|(_, c)| c.load(Ordering::Relaxed)).unwrap_or(999);
+            write!(cnt, "{sep}\"{name}\":{c}").unwrap();
+            let mut h: Vec<String> = Vec::new();
+            let mut o: Vec<String> = Vec::new();
+            for d in tables.collect_paths(table::TableQuery::Global, f, vec![], true) {
+                for p in &d.paths {
+                    if p.source.remote_addr == IpAddr::V4(src) {
+                        h.push(format!("[\"{}\",{}]", sl_name(&d.net), p.remote_path_id));
+                    } else if p.source.remote_addr == other_addr {
+                        o.push(format!("\"{}\"", sl_name(&d.net)));
+                    }
+                }
+            }
+            h.sort();
+            o.sort();
+            write!(held, "{sep}\"{name}\":[{}]", h.join(",")).unwrap();
+            write!(oth, "{sep}\"{name}\":[{}]", o.join(",")).unwrap();
+            write!(dest, "{sep}\"{name}\":{}", tables.table_state(f).num_destination).unwrap();
+        }
+        writeln!(
+            out,
+            "{{\"seq\":\"{sid}\",\"step\":{step},\"over\":{over},\"cnt\":{{{cnt}}},\"held\":{{{held}}},\"other\":{{{oth}}},\"dest\":{{{dest}}}}}"
+        )
+        .unwrap();
     }
     out.flush().unwrap();
 }
